@@ -1238,8 +1238,13 @@ _lookup(LB* self,
         return NULL;
 
     cache = _getcache(self, provided, name);
-    if (cache == NULL)
+    if (cache == NULL) {
+        Py_DECREF(required);
         return NULL;
+    }
+    /* Hold a strong reference: the call below can run arbitrary Python code
+       (including other threads) that clears our caches. */
+    Py_INCREF(cache);
 
     if (PyTuple_GET_SIZE(required) == 1)
         key = PyTuple_GET_ITEM(required, 0);
@@ -1253,10 +1258,12 @@ _lookup(LB* self,
         result = PyObject_CallMethodObjArgs(
           OBJECT(self), str_uncached_lookup, required, provided, name, NULL);
         if (result == NULL) {
+            Py_DECREF(cache);
             Py_DECREF(required);
             return NULL;
         }
         status = PyDict_SetItem(cache, key, result);
+        Py_DECREF(cache);
         Py_DECREF(required);
         if (status < 0) {
             Py_DECREF(result);
@@ -1264,6 +1271,7 @@ _lookup(LB* self,
         }
     } else {
         Py_INCREF(result);
+        Py_DECREF(cache);
         Py_DECREF(required);
     }
 
@@ -1502,8 +1510,11 @@ _lookupAll(LB* self, PyObject* required, PyObject* provided)
     ASSURE_DICT(self->_mcache);
 
     cache = _subcache(self->_mcache, provided);
-    if (cache == NULL)
+    if (cache == NULL) {
+        Py_DECREF(required);
         return NULL;
+    }
+    Py_INCREF(cache); /* see _lookup */
 
     result = PyDict_GetItem(cache, required);
     if (result == NULL) {
@@ -1512,10 +1523,12 @@ _lookupAll(LB* self, PyObject* required, PyObject* provided)
         result = PyObject_CallMethodObjArgs(
           OBJECT(self), str_uncached_lookupAll, required, provided, NULL);
         if (result == NULL) {
+            Py_DECREF(cache);
             Py_DECREF(required);
             return NULL;
         }
         status = PyDict_SetItem(cache, required, result);
+        Py_DECREF(cache);
         Py_DECREF(required);
         if (status < 0) {
             Py_DECREF(result);
@@ -1523,6 +1536,7 @@ _lookupAll(LB* self, PyObject* required, PyObject* provided)
         }
     } else {
         Py_INCREF(result);
+        Py_DECREF(cache);
         Py_DECREF(required);
     }
 
@@ -1570,8 +1584,11 @@ _subscriptions(LB* self, PyObject* required, PyObject* provided)
     ASSURE_DICT(self->_scache);
 
     cache = _subcache(self->_scache, provided);
-    if (cache == NULL)
+    if (cache == NULL) {
+        Py_DECREF(required);
         return NULL;
+    }
+    Py_INCREF(cache); /* see _lookup */
 
     result = PyDict_GetItem(cache, required);
     if (result == NULL) {
@@ -1580,10 +1597,12 @@ _subscriptions(LB* self, PyObject* required, PyObject* provided)
         result = PyObject_CallMethodObjArgs(
           OBJECT(self), str_uncached_subscriptions, required, provided, NULL);
         if (result == NULL) {
+            Py_DECREF(cache);
             Py_DECREF(required);
             return NULL;
         }
         status = PyDict_SetItem(cache, required, result);
+        Py_DECREF(cache);
         Py_DECREF(required);
         if (status < 0) {
             Py_DECREF(result);
@@ -1591,6 +1610,7 @@ _subscriptions(LB* self, PyObject* required, PyObject* provided)
         }
     } else {
         Py_INCREF(result);
+        Py_DECREF(cache);
         Py_DECREF(required);
     }
 
@@ -1794,9 +1814,15 @@ _verify(VB* self)
 
     if (self->_verify_ro != NULL && self->_verify_generations != NULL) {
         PyObject* generations;
+        PyObject* ro;
         int changed;
 
-        generations = _generations_tuple(self->_verify_ro);
+        /* reading ``_generation`` can run Python code that replaces
+           ``_verify_ro``: keep the tuple alive while iterating it */
+        ro = self->_verify_ro;
+        Py_INCREF(ro);
+        generations = _generations_tuple(ro);
+        Py_DECREF(ro);
         if (generations == NULL)
             return -1;
 
